@@ -1373,12 +1373,16 @@ class Collection(object):
         if remove and update:
             raise ValueError("Can't do both update and remove")
 
-        old = self.find_one(query, projection=projection, sort=sort)
-        if not old and not upsert:
+        # Pick the target on the full document: the projection may well drop (or empty) what
+        # identifies it.
+        target = self.find_one(query, sort=sort)
+        if target is None and not upsert:
             return
 
-        if old and '_id' in old:
-            query = {'_id': old['_id']}
+        old = None
+        if target is not None:
+            query = {'_id': target['_id']}
+            old = self.find_one(query, projection)
 
         if remove:
             self.delete_one(query)
